@@ -2,7 +2,13 @@
 C28 — helper lemmas.
   §1  gap lemmas: a non-zero integer has absolute value ≥ 1 (the ONLY place where integrality and
       the bound `8·B²·tol < 1` are used: every tolerance test on an integer quantity is exact)
-  §2  …
+  §2  2-D: the colinear tail `overlap2` = interval overlap
+  §3  2-D: model = specification on integer deltas (`seg2d_core`); bounds of determinants in the box
+  §4  3-D: the crossing branch (`cross3d_xy/xz/yz`, `seg3d_cross_core`)
+  §5  3-D: the parallel branch (argsort of four values, monotone reparametrisation, `par3d_same_core`)
+  §6  soundness of the specification (`mem_segInter3_iff'`): points of the result = common points
+  §7  symmetry (through "a well-formed result is determined by its point set"), 2-D via z = 0
+  §8  zero-length segments; the assertion `isect_1 ≈ isect_2` that the model drops
 -/
 import Mathlib.Tactic.Ring
 import Mathlib.Tactic.Linarith
@@ -1494,5 +1500,49 @@ theorem segInter2_WF (a b c d : P2) (nd1 : b.x - a.x ≠ 0 ∨ b.y - a.y ≠ 0) 
     exact fun e => this (by rw [e])
   | err e => rw [h] at this; exact this
 
+
+/-! ## §8  Zero-length segments; the dropped assertion -/
+
+theorem seg2d_zero_length (tol : Rat) (a b c : P2) :
+    seg2d tol a a b c = .err .assertion ∧ seg2d tol a b c c = .err .assertion := by
+  constructor <;> simp [seg2d]
+
+theorem seg3d_zero_length_par (tol : Rat) (h0 : 0 < tol) (a c d : P3) :
+    seg3d tol a a c d = par3d true tol a a c d :=
+  seg3d_eq_par tol a a c d h0 (by simp [minor, Dims.i, Dims.j, P3.get]) (by simp [minor, Dims.i, Dims.j, P3.get])
+    (by simp [minor, Dims.i, Dims.j, P3.get])
+
+theorem seg3d_zero_length_both (tol : Rat) (h0 : 0 < tol) (a : P3) : seg3d tol a a a a = .err .index := by
+  have h1 : ¬ tol < 0 := not_lt.mpr (le_of_lt h0)
+  have h2 : (0:Rat) ≤ atol := by decide +kernel
+  have hc : ∀ ax, close1 tol (a.get ax) (a.get ax) = true := by
+    intro ax
+    have : 0 ≤ rabs (a.get ax) := by rw [rabs_eq]; exact abs_nonneg _
+    simp only [close1, sub_self, rabs_zero, decide_eq_true_eq]
+    nlinarith
+  rw [seg3d_zero_length_par tol h0]
+  simp [par3d, P3.get, rabs_zero, ratiosDiffer, h1]
+  exact ⟨hc .x, hc .y, hc .z⟩
+
+theorem seg3d_zero_length_first (tol : Rat) (h0 : 0 < tol) (a c d : P3)
+    (hd : rabs (d.x - c.x) > tol ∨ rabs (d.y - c.y) > tol ∨ rabs (d.z - c.z) > tol) :
+    seg3d tol a a c d = .none := by
+  have h1 : ¬ tol < 0 := not_lt.mpr (le_of_lt h0)
+  rw [seg3d_zero_length_par tol h0]
+  unfold par3d
+  simp only [P3.get, sub_self, rabs_zero, gt_iff_lt, h1, decide_false]
+  rw [if_pos]
+  rcases hd with h | h | h
+  · left; simp [h]
+  · right; left; simp [h]
+  · right; right; simp [h]
+
+theorem isect_agree (ax ay d1x d1y d2x d2y dsx dsy : Rat) (h : d1x * (-d2y) - d1y * (-d2x) ≠ 0) :
+    ax + (dsx * (-d2y) - dsy * (-d2x)) / (d1x * (-d2y) - d1y * (-d2x)) * d1x
+      = (ax + dsx) + (d1x * dsy - d1y * dsx) / (d1x * (-d2y) - d1y * (-d2x)) * d2x ∧
+    ay + (dsx * (-d2y) - dsy * (-d2x)) / (d1x * (-d2y) - d1y * (-d2x)) * d1y
+      = (ay + dsy) + (d1x * dsy - d1y * dsx) / (d1x * (-d2y) - d1y * (-d2x)) * d2y := by
+  generalize hD : d1x * (-d2y) - d1y * (-d2x) = D at h
+  constructor <;> field_simp <;> rw [← hD] <;> ring
 
 end PorepyVerif.C28
